@@ -348,12 +348,102 @@ fn histories(g: &mut Gen, st: &mut Stats) -> CaseResult {
     Ok(())
 }
 
+/// Reference bytes of one token (a head, not necessarily a complete item), written from RFC 8949 section 3 and the
+/// documented meaning of each variant: integers by value with the shortest head, floats at the width the variant
+/// names (F16 = the given f32 rounded to nearest-even half precision), lengths/tags with the shortest head.
+fn token_ref(t: &minicbor::data::Token<'_>) -> Option<Vec<u8>> {
+    use minicbor::data::Token;
+    let mut o = Vec::new();
+    if let Some(n) = crate::registry::token_int(t) { return Some(Item::int(n).encode()) }
+    match t {
+        Token::Bool(b) => o.push(if *b { 0xf5 } else { 0xf4 }),
+        Token::Null => o.push(0xf6), Token::Undefined => o.push(0xf7), Token::Break => o.push(0xff),
+        Token::BeginBytes => o.push(0x5f), Token::BeginString => o.push(0x7f), Token::BeginArray => o.push(0x9f), Token::BeginMap => o.push(0xbf),
+        Token::F16(x) => { if x.is_nan() { return None } o.push(0xf9); o.extend_from_slice(&vcore::half_ref::f32_bits_to_f16_rne(x.to_bits()).to_be_bytes()) }
+        Token::F32(x) => { o.push(0xfa); o.extend_from_slice(&x.to_bits().to_be_bytes()) }
+        Token::F64(x) => { o.push(0xfb); o.extend_from_slice(&x.to_bits().to_be_bytes()) }
+        Token::Bytes(b) => return Some(Item::bytes(b).encode()),
+        Token::String(s) => return Some(Item::text(s).encode()),
+        Token::Array(n) => vcore::item::write_head(&mut o, 4, *n, W::min_for(*n)),
+        Token::Map(n) => vcore::item::write_head(&mut o, 5, *n, W::min_for(*n)),
+        Token::Tag(t) => { let n = u64::from(*t); vcore::item::write_head(&mut o, 6, n, W::min_for(n)) }
+        Token::Simple(n) => { if (24 ..= 31).contains(n) { return None } if *n < 24 { o.push(0xe0 | *n) } else { o.push(0xf8); o.push(*n) } }
+        _ => return None
+    }
+    Some(o)
+}
+
+/// Every `Token` variant (F16 with arbitrary f32 payloads, not only half-representable ones) against `token_ref`.
+fn token_bytes(g: &mut Gen, st: &mut Stats) -> CaseResult {
+    use minicbor::data::Token;
+    st.eval();
+    let bb = g.bytes(300);
+    let bs = g.string(80);
+    let t = if g.chance(60) { Token::F16(f32::from_bits(g.f32_bits())) } else { crate::checks::c07::gen_token(g, &bb, &bs, true) };
+    let out = minicbor::to_vec(&t).map_err(|e| vcore::Fail::new("encode-error", format!("{:?}: {}", t, e)))?;
+    let mut e = Encoder::new(Vec::new());
+    e.tokens(&[t]).map_err(|e| vcore::Fail::new("encode-error", format!("Encoder::tokens({:?}): {}", t, e)))?;
+    ensure!(e.writer() == &out, "tokens-differs", "Encoder::tokens([{:?}]) wrote {} but Token::encode wrote {}", t, short_hex(e.writer()), short_hex(&out));
+    let name = format!("{:?}", t);
+    st.class(&format!("token/{}", name.split(|c| c == '(' || c == ' ').next().unwrap_or("?")));
+    match token_ref(&t) {
+        Some(want) => ensure!(out == want, "bytes-differ", "{:?} encoded as {} ; the reference head is {}", t, short_hex(&out), short_hex(&want)),
+        None => match t {
+            // NaN: some half-precision NaN
+            Token::F16(_) => ensure!(out.len() == 3 && out[0] == 0xf9 && vcore::half_ref::f16_is_nan(u16::from_be_bytes([out[1], out[2]])), "bytes-differ", "{:?} encoded as {} ; expected a half-precision NaN", t, short_hex(&out)),
+            _ => {}
+        }
+    }
+    if out.len() >= 2 { st.nontrivial(hash_of(&out)) }
+    Ok(())
+}
+
+/// The IANA registry numbers of the tags minicbor names (RFC 8949 section 3.4, RFC 8746, IANA "CBOR Tags").
+const IANA: [(minicbor::data::IanaTag, u64); 41] = {
+    use minicbor::data::IanaTag::*;
+    [(DateTime, 0), (Timestamp, 1), (PosBignum, 2), (NegBignum, 3), (Decimal, 4), (Bigfloat, 5), (ToBase64Url, 21), (ToBase64, 22), (ToBase16, 23),
+     (Cbor, 24), (Uri, 32), (Base64Url, 33), (Base64, 34), (Regex, 35), (Mime, 36), (MultiDimArrayR, 40), (HomogenousArray, 41),
+     (TypedArrayU8, 64), (TypedArrayU16B, 65), (TypedArrayU32B, 66), (TypedArrayU64B, 67), (TypedArrayU8Clamped, 68), (TypedArrayU16L, 69), (TypedArrayU32L, 70), (TypedArrayU64L, 71),
+     (TypedArrayI8, 72), (TypedArrayI16B, 73), (TypedArrayI32B, 74), (TypedArrayI64B, 75), (TypedArrayI16L, 77), (TypedArrayI32L, 78), (TypedArrayI64L, 79),
+     (TypedArrayF16B, 80), (TypedArrayF32B, 81), (TypedArrayF64B, 82), (TypedArrayF128B, 83), (TypedArrayF16L, 84), (TypedArrayF32L, 85), (TypedArrayF64L, 86), (TypedArrayF128L, 87),
+     (MultiDimArrayC, 1040)]
+};
+
+/// `IanaTag` has an Encode impl only: index < 41 = the named tags (written as the tag head of their registry number,
+/// conversions to and from `Tag` agree), index >= 41 = every other number below 2^16 must not convert to a named tag.
+fn iana_tags(i: u64, st: &mut Stats) -> CaseResult {
+    use minicbor::data::IanaTag;
+    st.eval();
+    if (i as usize) < IANA.len() {
+        let (t, n) = IANA[i as usize];
+        let mut want = Vec::new();
+        vcore::item::write_head(&mut want, 6, n, W::min_for(n));
+        let out = minicbor::to_vec(t).map_err(|e| vcore::Fail::new("encode-error", e.to_string()))?;
+        ensure!(out == want, "bytes-differ", "IanaTag::{:?} wrote {} ; its registry number {} has the tag head {}", t, short_hex(&out), n, short_hex(&want));
+        let mut e = Encoder::new(Vec::new());
+        e.tag(t).map_err(|e| vcore::Fail::new("encode-error", e.to_string()))?;
+        ensure!(e.writer() == &want, "bytes-differ", "Encoder::tag(IanaTag::{:?}) wrote {} ; expected {}", t, short_hex(e.writer()), short_hex(&want));
+        ensure!(u64::from(Tag::from(t)) == n && u64::from(t.tag()) == n, "iana-number", "IanaTag::{:?} converts to tag {} ; the registry says {}", t, u64::from(Tag::from(t)), n);
+        ensure!(IanaTag::try_from(Tag::new(n)).ok() == Some(t), "iana-number", "Tag({}) converts to {:?}, expected {:?}", n, IanaTag::try_from(Tag::new(n)).ok(), t);
+        ensure!(minicbor::len(t) == want.len(), "iana-len", "len(IanaTag::{:?}) = {} but {} bytes are written", t, minicbor::len(t), want.len());
+        st.nontrivial_enum(1);
+        st.sample(i, || format!("IanaTag::{:?} = {} -> {}", t, n, short_hex(&out)));
+    } else {
+        let n = i - IANA.len() as u64;
+        if let Ok(t) = IanaTag::try_from(Tag::new(n)) {
+            ensure!(IANA.iter().any(|(x, m)| *x == t && *m == n), "iana-number", "Tag({}) converts to IanaTag::{:?}, which is not its registry number", n, t);
+        }
+    }
+    Ok(())
+}
+
 pub fn subs() -> Vec<Sub> {
     let en = |name, n: u64, f, rule, thorough_only: bool| Sub {
         prop: "C03", name, rule,
         kind: Kind::Enumerate { quick: if thorough_only { 1 << 18 } else { n }, thorough: n, f, complete_quick: !thorough_only, complete_thorough: true }
     };
     vec![
+        en("iana-tags", 41 + (1 << 16), iana_tags, "the 41 named IANA tags: Encode / Encoder::tag / CborLen write the tag head of the registry number (table from RFC 8949 3.4, RFC 8746), Tag <-> IanaTag conversions agree; every other number < 2^16 converts to no named tag or to the right one", false),
         en("all-u8", 1 << 8, ex_u8, "Encoder::u8 and u8::encode for all values vs reference encoder; non-trivial = output >= 2 bytes", false),
         en("all-i8", 1 << 8, ex_i8, "all i8", false),
         en("all-u16", 1 << 16, ex_u16, "all u16", false),
@@ -367,6 +457,8 @@ pub fn subs() -> Vec<Sub> {
               kind: Kind::Random { quick: 1_000_000, thorough: 5_000_000, tape: 64, f: wide_methods } },
         Sub { prop: "C03", name: "values", rule: "values of ~120 registry types: output is one well-formed item, in preferred definite form, equal to the reference encoding of the model value (multiset comparison for hash collections), identical when encoded twice; non-trivial = output >= 2 bytes",
               kind: Kind::Random { quick: 1_200_000, thorough: 12_000_000, tape: 1024, f: values } },
+        Sub { prop: "C03", name: "token-bytes", rule: "every Token variant - F16 with arbitrary f32 payloads (inexact, overflowing, NaN), integers of every width, heads with boundary arguments - through Token::encode and Encoder::tokens: bytes equal an independent per-token reference (half precision = round-to-nearest-even of the payload, NaN = some half NaN)",
+              kind: Kind::Random { quick: 400_000, thorough: 4_000_000, tape: 512, f: token_bytes } },
         Sub { prop: "C03", name: "iter-encoders", rule: "ArrayIter/MapIter with exact and inexact size_hint vs reference (definite resp. indefinite)",
               kind: Kind::Random { quick: 100_000, thorough: 400_000, tape: 1300, f: iter_encoders } },
         Sub { prop: "C03", name: "histories", rule: "generated item tree lowered to a balanced Encoder call sequence with a random choice among the methods able to express each node (u8/u16/../int/encode, array(n) vs begin_array..end, chunked begin_bytes); output == reference serialisation with the implied framing; non-trivial = >= 2 calls",
